@@ -39,6 +39,10 @@ FORBIDDEN = re.compile(
 def sh(cmd, timeout=None, cwd=None, env=None, inp=None, merge_stderr=True):
     e = dict(os.environ)
     e.update({"CARGO_NET_OFFLINE": "true"})
+    # glibc malloc tuning for every child (the real ragc spends 10-30 s per create page-faulting fresh zstd
+    # level-19 contexts in this VM; with these thresholds 0.2-1.3 s, byte-identical output)
+    e.setdefault("GLIBC_TUNABLES",
+                 "glibc.malloc.mmap_threshold=4294967296:glibc.malloc.trim_threshold=4294967296")
     if env:
         e.update(env)
     try:
@@ -234,6 +238,11 @@ def target_dir(profile):
 def build_harness(profile="dev", prop=None):
     """cargo build of harness/ (one binary per property: src/bin/cXX.rs) against /repo's working tree"""
     env = {"CARGO_TARGET_DIR": target_dir(profile), "RUSTFLAGS": f"--cfg {GUARD}"}
+    ct = os.path.join(VERIF, "harness/Cargo.toml")
+    txt = open(ct).read()
+    want = re.sub(r'path = "[^"]*/(ragc-core|ragc-common)"', lambda m: f'path = "{REPO}/{m.group(1)}"', txt)
+    if want != txt:
+        open(ct, "w").write(want)
     lock = os.path.join(VERIF, "harness/Cargo.lock")
     if not os.path.exists(lock):
         shutil.copy(os.path.join(REPO, "Cargo.lock"), lock)
